@@ -863,6 +863,19 @@ func init() {
 		w.stubsSeen["model:mergo.Merge(map,WithOverride)"] = true
 		return Iface{}
 	})
+	// proto.Clone(msg): a deep copy of the message (pointers, slices and maps are duplicated, shared structure
+	// inside the message stays shared inside the copy)
+	protoClone := func(w *World, th *Thread, fn *ssa.Function, args []Value) Value {
+		iv, ok := args[0].(Iface)
+		if !ok || iv.t == nil {
+			return Iface{}
+		}
+		w.stubsSeen["model:proto.Clone(deep copy)"] = true
+		return Iface{t: iv.t, v: deepCopyValue(iv.v, map[Ptr]Ptr{}, map[*Map]*Map{})}
+	}
+	reg("github.com/gogo/protobuf/proto.Clone", protoClone)
+	reg("github.com/golang/protobuf/proto.Clone", protoClone)
+	reg("google.golang.org/protobuf/proto.Clone", protoClone)
 	registerTimeIntrinsics(reg)
 	registerContextIntrinsics(reg)
 	registerStringIntrinsics(reg)
@@ -1176,4 +1189,62 @@ func (w *World) nativeScalar(a Value) (any, bool) {
 		return x, true
 	}
 	return nil, false
+}
+
+// deepCopyValue duplicates everything reachable from v through pointers, slices and maps.
+func deepCopyValue(v Value, seen map[Ptr]Ptr, seenMaps map[*Map]*Map) Value {
+	switch x := v.(type) {
+	case Ptr:
+		if x == nil {
+			return x
+		}
+		if n, ok := seen[x]; ok {
+			return n
+		}
+		n := new(Value)
+		seen[x] = n
+		*n = deepCopyValue(*x, seen, seenMaps)
+		return n
+	case Struct:
+		n := make(Struct, len(x))
+		for i, f := range x {
+			n[i] = deepCopyValue(f, seen, seenMaps)
+		}
+		return n
+	case Array:
+		n := make(Array, len(x))
+		for i, f := range x {
+			n[i] = deepCopyValue(f, seen, seenMaps)
+		}
+		return n
+	case Slice:
+		if x.nil || x.sym != nil {
+			return x
+		}
+		full := x.a[:cap(x.a)]
+		na := make([]Value, len(full))
+		for i, f := range full {
+			na[i] = deepCopyValue(f, seen, seenMaps)
+		}
+		return Slice{a: na[:len(x.a)]}
+	case *Map:
+		if x == nil {
+			return x
+		}
+		if n, ok := seenMaps[x]; ok {
+			return n
+		}
+		n := newMap(x.kt, x.vt)
+		seenMaps[x] = n
+		for _, e := range x.entries {
+			n.addEntry(deepCopyValue(e.k, seen, seenMaps), deepCopyValue(e.v, seen, seenMaps))
+		}
+		return n
+	case Iface:
+		if x.t == nil {
+			return x
+		}
+		return Iface{t: x.t, v: deepCopyValue(x.v, seen, seenMaps)}
+	}
+	return v
 }
